@@ -142,11 +142,18 @@ def evaluate(ctx, specs, rng, profiles, want_brute, out, kind):
                 if not U.close(float(b["fl"][i]), bf, REL_LH):
                     add_failure(out, "spec", "per-column likelihood differs from the sum over all labelings",
                                 dict(_slim(spec), column=i, check="lh"), float(bf), float(b["fl"][i]), sig=_sig(kind, "lh", feat))
+            # lnL against the plain definition: one term per alignment column (the harness's own column
+            # bookkeeping, not the model's `indexed`); columns that were not brute-forced use the model's
+            # prune value, which theorem prune_eq_bruteForce proves equal to the sum over labelings
+            pos = {tuple(c): u for u, c in enumerate(res["uniq"])}
+            exact_lnl = 0.0
+            for col in ex["cols"]:
+                u = pos[tuple(col)]
+                exact_lnl += U.log_fraction(bfs.get(u, lhs[u]))
+            if not (abs(b["lnl"] - exact_lnl) <= REL_LNL * abs(exact_lnl) + 1e-12):
+                add_failure(out, "spec", "lnL differs from sum over columns of log(sum over labelings)",
+                            dict(_slim(spec), check="lnl"), exact_lnl, b["lnl"], sig=_sig(kind, "lnl", feat))
             if bfs and len(bfs) == len(counts):
-                exact_lnl = sum(k * U.log_fraction(bfs[u]) for u, k in enumerate(counts))
-                if not (abs(b["lnl"] - exact_lnl) <= REL_LNL * abs(exact_lnl) + 1e-12):
-                    add_failure(out, "spec", "lnL differs from sum over columns of log(sum over labelings)",
-                                dict(_slim(spec), check="lnl"), exact_lnl, b["lnl"], sig=_sig(kind, "lnl", feat))
                 bump(out, "lnl_fully_brute_forced")
         if len(counts) >= 2:
             out["nontrivial"].add((spec["model"], spec["newick"], spec["seed"], kind))
@@ -235,11 +242,12 @@ def correspondence(ctx):
         "unique columns (and _indexed inputs with a repeated key and >= 2 distinct keys)"
     )
     rng = ctx.subrng("corr")
+    U.BIG_BINS = ctx.thorough
     _indexed_tie(ctx, out, rng)
     if ctx.thorough:
         plan = _model_plan(ctx, rng, 150, 20, 10, 6)
     else:
-        plan = _model_plan(ctx, rng, 22, 2, 1, 1)
+        plan = _model_plan(ctx, rng, 30, 2, 1, 1)
     specs = []
     for name in plan:
         specs.append(U.rand_problem(rng, name, unary=rng.random() < 0.15))
@@ -327,12 +335,13 @@ def spec_check(ctx, budget):
         "P == scipy expm(Q t); non-trivial = problems with >= 2 unique columns"
     )
     rng = ctx.subrng(f"spec{budget}")
+    U.BIG_BINS = ctx.thorough
     kinds = U.model_kinds()
     nuc = [m for m, k in kinds.items() if k == "nucleotide"]
     codon = [m for m, k in kinds.items() if k == "codon"]
     prot = [m for m, k in kinds.items() if k == "protein"]
     specs = []
-    for i in range(12 * budget):
+    for i in range(20 * budget):
         specs.append(U.rand_problem(rng, nuc[(i + ctx.seed) % len(nuc)], ntips=rng.randint(3, 6), unary=rng.random() < 0.15))
     n_big = max(1, budget // 2)
     for i in range(n_big):
